@@ -36,7 +36,7 @@ BODIES = [
 ]
 
 
-def description(rng: random.Random, n_ops=3, allow_body_scalar=True, arrays=False):
+def description(rng: random.Random, n_ops=3, allow_body_scalar=True, arrays=False, twins=False):
     pool = [copy.deepcopy(s) for s in rng.sample(SCALARS, 4)]
     if arrays and rng.random() < 0.5:
         pool[rng.randrange(4)] = copy.deepcopy(rng.choice(ARRAYS))
@@ -95,6 +95,26 @@ def description(rng: random.Random, n_ops=3, allow_body_scalar=True, arrays=Fals
                 body["required"] = rng.random() < 0.5
             op["requestBody"] = body
         paths[path] = {rng.choice(["get", "post", "put"]): op}
+    if twins and rng.random() < 0.4:
+        # one component referenced twice, once alone and once next to a keyword that tightens it, in two operations (or one)
+        for i in rng.sample([0, 1], 2):
+            t = pool[i].get("type")
+            sib = None
+            if "enum" in pool[i]:
+                continue
+            if t == "string" and "maxLength" not in pool[i] and "minLength" not in pool[i]:
+                sib = {"minLength": rng.choice([2, 3])}
+            elif t in ("number", "integer") and "maximum" not in pool[i] and "exclusiveMaximum" not in pool[i]:
+                sib = {"maximum": pool[i].get("minimum", pool[i].get("exclusiveMinimum", 0)) + rng.choice([2, 3, 10])}
+            if sib is None:
+                continue
+            ops = [list(v.values())[0] for v in paths.values()]
+            a, b = (ops[0], ops[-1]) if rng.random() < 0.5 else (ops[-1], ops[0])
+            ref = {"$ref": "#/components/schemas/S%d" % i}
+            for o, sch, nm in ((a, dict(ref), "tw"), (b, dict(ref, **sib), "tx")):
+                if not any(p["name"] == nm and p["in"] == "query" for p in o["parameters"]):
+                    o["parameters"].append({"name": nm, "in": "query", "schema": sch, "required": True})
+            break
     return {"info": {"title": "t"}, "paths": paths, "components": comps}
 
 
